@@ -140,6 +140,31 @@ def CC_LOOPS(header):
     return None
 
 
+def TUP_LOOPS(header):
+    if "__mi0 <" in header:
+        return "invariant __mi0 <= typs@.len(), __mo0@.len() == __mi0,\ndecreases typs@.len() - __mi0,"
+    if "__ni > 0" in header:
+        return ("invariant __ni <= names@.len(), names@.len() == typs@.len(), result == proj_chain(names@, *bvar, typs@, *ty, __ni as int, hole_g),\n"
+                "decreases __ni,")
+    if "__nf <" in header:
+        return ("invariant __nf <= names@.len(), names@.len() == typs@.len(), result == proj_chain_desc(names@, *bvar, typs@, *ty, __nf as int, hole_g),\n"
+                "decreases names@.len() - __nf,")
+    if "__rv.len()" in header:
+        return ("invariant __rv@.len() <= rows0.len(), __rv@ == rows0.subrange(rows0.len() - __rv@.len(), rows0.len() as int), rows0 == rows@, names@ == names_g,\n"
+                "  new_rows@.len() == rows0.len() - __rv@.len(),\n"
+                f"  forall|k: int| 0 <= k < new_rows@.len() ==> (#[trigger] new_rows@[k]).body == rows0[k].body && new_rows@[k].columns@ == tuple_cols(rows0[k].columns@, {V}, names_g, rows0[k].columns@.len() as int),\n"
+                "decreases __rv@.len(),")
+    if "__cv.len()" in header:
+        return ("invariant __cv@.len() <= cols0.len(), __cv@ == cols0.subrange(cols0.len() - __cv@.len(), cols0.len() as int), names@ == names_g,\n"
+                f"  cols@ == tuple_cols(cols0, {V}, names_g, cols0.len() - __cv@.len()),\n"
+                "decreases __cv@.len(),")
+    if "__it.len()" in header:
+        return ("invariant __ii + __it@.len() == items0.len(), items0.len() == __in, __it@ == items0.subrange(__ii as int, items0.len() as int), names@ == names_g,\n"
+                "  cols@ == base + sub_tuple_cols(names_g, items0, __ii as int),\n"
+                "decreases __it@.len(),")
+    return None
+
+
 UNIT = Unit(
     name="U-ROWS",
     properties=["C06"],
@@ -314,5 +339,85 @@ UNIT = Unit(
            obligation=SPLIT_OBL + " (integer literals of every width: the literal's key is whatever the `extract` closure reads from the pattern)",
            contract=SPLIT_I.contract("requires ext_ok(extract),\n        "), ghost=SPLIT_I.ghost(),
            loop_fn=lambda k, header, kw: SPLIT_I.loop(header)),
+        Fn(file=CM, name="compile_string_case", rename="string_case_tail", ret="r", attrs="#[verifier::loop_isolation(false)]",
+           rules=["attrs", ("strip", "tast::")],
+           cut_from="let arms = value_rows",
+           sig="fn string_case_tail(genv: &GlobalTypeEnv, gensym: &Gensym, diagnostics: &mut Diagnostics, value_rows: ValMap, default_rows: Vec<Row>, "
+               "bvar: &Variable, ty: &Ty, match_range: Option<TextRange>, body_ty: Ty) -> core::Expr",
+           pre_rewrites=[(re.compile(r"let arms = value_rows\s*\.into_iter\(\)\s*\.map\(\|\((\w+), (\w+)\)\| core::Arm \{(.*?)\}\)\s*\.collect\(\);", re.S),
+                r"let mut arms: Vec<core::Arm> = Vec::new(); let mut __vm = value_rows; while __vm.len() > 0 { let (\1, \2) = __vm.pop_front(); let __a = core::Arm {\3}; arms.push(__a); }", 1)],
+           rewrites=[(re.compile(r"\bcompile_rows\("), "compile_rows_rec(", 2), (re.compile(r"\.clone\(\)"), ".vclone()", "*")],
+           obligation="the switch is on the scrutinee variable, has exactly one arm per literal sub-matrix — the literal itself as the arm's "
+                      "left-hand side, the decision tree of THAT literal's sub-matrix as its body — and its default is the decision tree of the "
+                      "default sub-matrix (none if that is empty)",
+           contract="ensures lit_switch(r, *bvar, value_rows.entries(), default_rows@, *ty, str_lhs()),",
+           ghost=[(r"@after-loop:__vm", "", "let ghost arms_f = arms@; let ghost es_f = value_rows.entries(); proof { "
+                   "assert forall|i: int| 0 <= i < arms_f.len() implies has_entry(es_f, #[trigger] arms_f[i], *ty, str_lhs()) by { reveal(has_entry); assert(arm_of(arms_f[i], es_f[i], *ty, str_lhs())); } "
+                   "assert forall|j: int| 0 <= j < es_f.len() implies has_arm(arms_f, #[trigger] es_f[j], *ty, str_lhs()) by { reveal(has_arm); assert(arm_of(arms_f[j], es_f[j], *ty, str_lhs())); } }")],
+           loop_fn=lambda k, header, kw: (
+               "invariant arms@.len() + __vm.entries().len() == value_rows.entries().len(), __vm.entries() == value_rows.entries().subrange(arms@.len() as int, value_rows.entries().len() as int),\n"
+               "  forall|i: int| 0 <= i < arms@.len() ==> arm_of(#[trigger] arms@[i], value_rows.entries()[i], *ty, str_lhs()),\n"
+               "decreases __vm.entries().len(),")),
+        Fn(file=CM, name="compile_int_case_impl", rename="int_case_tail", ret="r", attrs="#[verifier::loop_isolation(false)]",
+           rules=["attrs", ("strip", "tast::"), "fmtmsg"],
+           cut_from="if default_rows.is_empty() {\n        let message",
+           sig="fn int_case_tail<T, ToPrim>(genv: &GlobalTypeEnv, gensym: &Gensym, diagnostics: &mut Diagnostics, value_rows: IntMap<T>, default_rows: Vec<Row>, "
+               "bvar: &Variable, ty: &Ty, literal_ty: Ty, match_range: Option<TextRange>, to_prim: ToPrim, body_ty: Ty) -> core::Expr\nwhere T: Copy, ToPrim: Fn(T) -> Prim,",
+           pre_rewrites=[(re.compile(r"let arms = value_rows\s*\.into_iter\(\)\s*\.map\(\|\((\w+), (\w+)\)\| core::Arm \{(.*?)\}\)\s*\.collect\(\);", re.S),
+                r"let mut arms: Vec<core::Arm> = Vec::new(); let mut __vm = value_rows; while __vm.len() > 0 { let (\1, \2) = __vm.pop_front(); let __a = core::Arm {\3}; arms.push(__a); }", 1)],
+           rewrites=[(re.compile(r"\bcompile_rows\("), "compile_rows_rec(", 2), (re.compile(r"\.clone\(\)"), ".vclone()", "*")],
+           obligation="with an empty default sub-matrix (no wildcard arm) the integer match is reported as non-exhaustive (one error diagnostic) and "
+                      "compiles to the `missing` call; otherwise the switch is as for strings, each arm's literal being to_prim(key)",
+           contract="""requires forall|k: T| #[trigger] to_prim.requires((k,)),
+        ensures default_rows@.len() == 0 ==> r == missing_of(*ty) && final(diagnostics).errors() == old(diagnostics).errors() + 1,
+            default_rows@.len() > 0 ==> lit_switch(r, *bvar, value_rows.entries(), default_rows@, *ty, int_lhs(to_prim, literal_ty)),""",
+           ghost=[(r"@after-loop:__vm", "", "let ghost arms_f = arms@; let ghost es_f = value_rows.entries(); proof { "
+                   "assert forall|i: int| 0 <= i < arms_f.len() implies has_entry(es_f, #[trigger] arms_f[i], *ty, int_lhs(to_prim, literal_ty)) by { reveal(has_entry); assert(arm_of(arms_f[i], es_f[i], *ty, int_lhs(to_prim, literal_ty))); } "
+                   "assert forall|j: int| 0 <= j < es_f.len() implies has_arm(arms_f, #[trigger] es_f[j], *ty, int_lhs(to_prim, literal_ty)) by { reveal(has_arm); assert(arm_of(arms_f[j], es_f[j], *ty, int_lhs(to_prim, literal_ty))); } }")],
+           loop_fn=lambda k, header, kw: (
+               "invariant arms@.len() + __vm.entries().len() == value_rows.entries().len(), __vm.entries() == value_rows.entries().subrange(arms@.len() as int, value_rows.entries().len() as int),\n"
+               "  forall|i: int| 0 <= i < arms@.len() ==> arm_of(#[trigger] arms@[i], value_rows.entries()[i], *ty, int_lhs(to_prim, literal_ty)),\n"
+               "decreases __vm.entries().len(),")),
+        Fn(file=CM, name="replace_default_expr", attrs="#[verifier::loop_isolation(false)]", rules=["attrs", ("strip", "tast::")],
+           obligation="the innermost body of a chain of lets is replaced, the lets themselves are kept",
+           contract="ensures *final(expr) == replace_tail(*old(expr), replacement),\n    decreases *old(expr),"),
+        Fn(file=CM, name="compile_tuple_case", ret="r", attrs="#[verifier::loop_isolation(false)]\n#[verifier::rlimit(60)]", rules=["attrs", ("strip", "tast::"), "iter_map_collect"],
+           pre_rewrites=[
+               ("for (i, name) in names.iter().enumerate().rev() {", "let mut __ni: usize = names.len(); while __ni > 0 { __ni -= 1; let i = __ni; let name = &names[i];", "*"),
+               ("for (i, name) in names.iter().enumerate() {", "let mut __nf: usize = 0; while __nf < names.len() { let i = __nf; let name = &names[i]; __nf += 1;", "*"),
+               ("for row in rows {", "let ghost rows0 = rows@; let mut __rv = rows; while __rv.len() > 0 { let row = __rv.remove(0);"),
+               ("for Column { var, pat } in row.columns {", "let ghost cols0 = row.columns@; let mut __cv = row.columns; while __cv.len() > 0 { let Column { var, pat } = __cv.remove(0);"),
+               ("for (i, item) in items.into_iter().enumerate() {",
+                "let ghost items0 = items@; let ghost base = cols@; let __in: usize = items.len(); let mut __it = items; let mut __ii: usize = 0; while __it.len() > 0 { let item = __it.remove(0); let i = __ii; __ii += 1; "
+                "proof { assume(i < names@.len()); }"),
+           ],
+           rewrites=[("typs: &[Ty]", "typs: &Vec<Ty>"), ("let mut new_rows = vec![];", "let mut new_rows: Vec<Row> = Vec::new();"), ("let mut cols = vec![];", "let mut cols: Vec<Column> = Vec::new();"),
+                     ("let hole = core::eunit();", "let hole = core_eunit(); let ghost hole_g = hole;"), ("if var == bvar.name {", "if string_eq(&var, &bvar.name) {"),
+                     ("unreachable!()", "{ proof { assume(false); } }"), (re.compile(r"\.clone\(\)"), ".vclone()", "*"),
+                     (re.compile(r"let inner = compile_rows\("), "let inner = compile_rows_rec(", 1),
+                     # the witness of the postcondition's `exists`, stated just before the tail expression
+                     (re.compile(r"\n    result\n\}\s*$"), "\n    proof { lemma_chain_tail(names_g, *bvar, typs@, *ty, 0, hole_g, rows_core(new_rows@, *ty)); lemma_chain_desc_tail(names_g, *bvar, typs@, *ty, names_g.len() as int, hole_g, rows_core(new_rows@, *ty)); assert(tuple_case_of(result, rows@, *bvar, typs@, *ty, names_g, new_rows@)); }\n    result\n}", 1)],
+           obligation="the tuple scrutinee's component i is bound to the i-th fresh variable (`let x_i = bvar.i`, with the i-th component type), around the "
+                      "decision tree of the rewritten matrix (the order of these lets is free: first or last component outermost): same rows in the same order with the same bodies, every column on the tuple variable "
+                      "replaced in place by one column per sub-pattern (sub-pattern i against x_i), other columns kept",
+           contract="ensures exists|names: Seq<String>, rs: Seq<Row>| #[trigger] tuple_case_of(r, rows@, *bvar, typs@, *ty, names, rs),",
+           ghost=[("let mut result = hole;", "line-after", "let ghost names_g = names@;")],
+           loop_fn=lambda k, header, kw: TUP_LOOPS(header)),
+        Fn(file=CM, name="compile_unit_case", ret="r", attrs="#[verifier::loop_isolation(false)]", rules=["attrs", ("strip", "tast::")],
+           pre_rewrites=[("for mut r in rows {", "let ghost rows0 = rows@; let mut __rv = rows; while __rv.len() > 0 { let mut r = __rv.remove(0);"),
+                         ("let body_ty = rows.first().map(|r| r.get_ty()).unwrap_or(Ty::TUnit);", "let body_ty = first_row_ty(&rows);")],
+           rewrites=[("let mut new_rows = vec![];", "let mut new_rows: Vec<Row> = Vec::new();"), ("core::eunit()", "core_eunit()"),
+                     ("arms: vec![core::Arm {", "arms: vec_one_arm(core::Arm {"), (re.compile(r"\}\],\s*default: None,"), "}),\n        default: None,", 1),
+                     (re.compile(r"body: compile_rows\("), "body: compile_rows_rec(", 1),
+                     # name the tail expression so that the witness of the postcondition's `exists` can be stated
+                     (re.compile(r"\n    core::Expr::EMatch \{(.*)\n    \}\n\}\s*$", re.S),
+                      r"\n    let __res = core::Expr::EMatch {\1\n    };\n    proof { assert(unit_case_of(__res, rows@, *bvar, rs_g)); }\n    __res\n}", 1)],
+           obligation="every row stays, in order, minus its test on the unit variable; one arm `() => decision tree of these rows`, no default",
+           contract="ensures exists|rs: Seq<Row>| #[trigger] unit_case_of(r, rows@, *bvar, rs),",
+           ghost=[("@after-loop:__rv", "", "let ghost rs_g = new_rows@;")],
+           loop_fn=lambda k, header, kw: (
+               "invariant __rv@.len() <= rows0.len(), __rv@ == rows0.subrange(rows0.len() - __rv@.len(), rows0.len() as int), rows0 == rows@,\n"
+               f"  new_rows@.len() == rows0.len() - __rv@.len(), forall|k: int| 0 <= k < new_rows@.len() ==> unit_row(rows0[k], {V}, #[trigger] new_rows@[k]),\n"
+               "decreases __rv@.len(),")),
     ],
 )
